@@ -216,7 +216,7 @@ def run(ctx):
                      "shared open bonds, identity wires, negative ids) with small Gaussian-integer data; scaffolds: all binary trees with "
                      "both child orders for n<=3 (thorough: n<=5), random otherwise. non-trivial = >=2 tensors and one of hyper-bond, "
                      "multi-edge, shared open bond, self-trace")
-    ctx.lib(["TN/TNCheck", "TN/TNEinsumSpec"])
+    ctx.lib(["TN/TNCheck", "TN/TNTreeCheck"])
     ctx.props()
     rng = ctx.rng
     cases = []
